@@ -39,6 +39,7 @@ type input struct {
 	Bits   string  `json:"bits,omitempty"`
 	Value  *VR     `json:"value,omitempty"`
 	Recipe *Recipe `json:"recipe,omitempty"`
+	Ext    *XR     `json:"ext,omitempty"`
 	Family string  `json:"family,omitempty"`
 }
 
@@ -68,6 +69,8 @@ func (in input) req() Req {
 		return Req{"P", in.bytes()}
 	case "pvalue":
 		return Req{"Q", in.bytes()}
+	case "xtype":
+		return Req{"X", in.Ext.json()}
 	}
 	panic("unknown input kind " + in.Kind)
 }
@@ -122,10 +125,10 @@ func main() {
 func generate(cfg *lib.Config, rng *lib.Rng) []input {
 	var ins []input
 	maxLen, nRandStr, nRandRx, nRandInt, nRandFloat, nRandType, nRandVal, nRandLex := 2, 3000, 1500, 2000, 4000, 1500, 1500, 2000
-	nRandObj := 1500
+	nRandObj, nRandExt := 1500, 1500
 	if cfg.Thorough() {
 		maxLen, nRandStr, nRandRx, nRandInt, nRandFloat, nRandType, nRandVal, nRandLex = 3, 60000, 20000, 20000, 60000, 20000, 20000, 20000
-		nRandObj = 20000
+		nRandObj, nRandExt = 20000, 20000
 	}
 	// strings
 	allWords(stringAlphabet, maxLen, func(s string) { ins = append(ins, strInput("string", s, "exhaustive")) })
@@ -255,6 +258,13 @@ func generate(cfg *lib.Config, rng *lib.Rng) []input {
 	}
 	for _, t := range objectTypeTexts() {
 		ins = append(ins, strInput("ptype", t, "object-corpus"))
+	}
+	// extensions of parameterized Object types: every subset of the declared parameters given x every route
+	for _, x := range extCorner() {
+		ins = append(ins, input{Kind: "xtype", Ext: x, Family: "ext-corner"})
+	}
+	for i := 0; i < nRandExt; i++ {
+		ins = append(ins, input{Kind: "xtype", Ext: randomExt(rng.Fork()), Family: "ext-random"})
 	}
 	// types given by their text: every argument form the creators accept
 	for _, t := range ptypeCorpus() {
@@ -682,6 +692,13 @@ func evaluate(cfg *lib.Config, res *lib.Result, in input, o Obs, em *emitter, id
 		em.addType(in, o)
 	case "lex":
 		em.addLex(in, in.bytes(), o)
+	case "xtype":
+		if !extEvaluate(in, o, res, violate) {
+			em.failed = true
+		} else if o.Class == "ok" {
+			res.Nontrivial("x:" + in.Ext.json())
+		}
+		em.addExt(in, o)
 	}
 	if in.Kind == "value" {
 		em.addValue(in, o)
@@ -730,6 +747,8 @@ func describe(in input) string {
 		return "value " + string(b)
 	case "type":
 		return "type " + in.Recipe.json()
+	case "xtype":
+		return "extension " + in.Ext.json()
 	}
 	return in.Kind
 }
